@@ -321,12 +321,17 @@ fn miri_slice(seed: u64, ops: usize, max_s: u64) -> i32 {
     0
 }
 
+/// the interpreter's build goes next to the build this binary comes from (`<target>/release/c14` -> `<target>/miri`)
+fn miri_target_dir() -> String {
+    std::env::current_exe().ok().and_then(|p| p.parent().and_then(|d| d.parent()).map(|t| t.join("miri").to_string_lossy().into_owned())).unwrap_or_else(|| "/tmp/c14-miri-target".into())
+}
+
 fn run_miri(ctx: &Ctx, ops: usize) -> (String, Option<String>) {
     let manifest = format!("{}/../../Cargo.toml", env!("CARGO_MANIFEST_DIR"));
     if !std::path::Path::new(&manifest).exists() { return (format!("skipped: {manifest} not found"), None); }
     let t0 = std::time::Instant::now();
     let out = std::process::Command::new("timeout").args(["-k", "10", "285", "cargo", "+nightly", "miri", "run", "--offline", "--manifest-path", &manifest, "-p", "c14", "--", "--miri-slice", &ctx.seed.to_string(), &ops.to_string(), "150"])
-        .env("MIRIFLAGS", "-Zmiri-disable-isolation").env("CARGO_NET_OFFLINE", "true").env_remove("RUSTFLAGS").output();
+        .env("MIRIFLAGS", "-Zmiri-disable-isolation").env("CARGO_NET_OFFLINE", "true").env("CARGO_TARGET_DIR", miri_target_dir()).env_remove("RUSTFLAGS").output();
     let out = match out { Ok(o) => o, Err(e) => return (format!("skipped: cannot start cargo miri: {e}"), None) };
     let so = String::from_utf8_lossy(&out.stdout); let se = String::from_utf8_lossy(&out.stderr);
     let secs = t0.elapsed().as_secs();
@@ -350,10 +355,11 @@ fn main() {
     let replay = load_replay(&mut ctx);
     if let Err(e) = self_checks() { println!("HARNESS-ERROR C14 self-check failed: {e}"); std::process::exit(3); }
     let mut rep = Report::new();
-    let n_jar = ctx.tier.pick(1_500, 40_000);
-    let n_maps = ctx.tier.pick(6_000, 200_000);
-    run_cases(&ctx, &replay, &mut rep, "jar", n_jar, |rng, rep, _| jar_case(rng, rep));
+    // the cheap workload first: the wall-clock budget only ends generation, and the obligations of both are met within the first few hundred cases
+    let n_maps = ctx.tier.pick(20_000, 600_000);
+    let n_jar = ctx.tier.pick(5_000, 150_000);
     run_cases(&ctx, &replay, &mut rep, "maps", n_maps, |rng, rep, _| maps_case(rng, rep, false));
+    run_cases(&ctx, &replay, &mut rep, "jar", n_jar, |rng, rep, _| jar_case(rng, rep));
 
     let mut meta = Meta::new("exploration",
         "jar case = 3-8 generated classes that reference each other (generated bodies over a shared class pool + anchor methods) x a nests table of 1-6 rows plus rows for absent classes, fed as text, x a two-namespace mapping set over the same classes; \
